@@ -205,6 +205,16 @@ Proof.
 Qed.
 Print Assumptions C06_held_objects_disjoint_after_every_history.
 
+(* the statement is about something: after the history of C06_whole_life_fixed_lists_applies the
+   vector holds two elements with two instrumented 8-byte objects each, at 8, 16 and 32, 40 *)
+Example C06_held_objects_disjoint_applies :
+  let l := s_elems (srun {| s_cap := 4; s_elems := [] |} c06fH) in
+  nt_hist_okx c06fL {| s_cap := 4; s_elems := [] |} c06fH /\
+  vobjs (ntc true) c06fL (cpos c06fL 0 l) l = [(8, 8); (16, 8); (32, 8); (40, 8)].
+Proof.
+  cbv zeta. split; [apply nt_hist_okx_fixed; reflexivity|]. vm_compute. reflexivity.
+Qed.
+
 (* ---------- the objects of a ContiguousElement ----------
    An element constructed from a reference (value_type{ref}: copy form, value_type{std::move(ref)}:
    move form) constructs - through the value type's copy / move constructor - exactly the objects
